@@ -38,7 +38,10 @@ def upper_layer(rng, base):
             if sub:
                 out[k] = sub
         elif isinstance(x, list) and rng.random() < 0.3:
-            out[k] = ["extra"]
+            out[k] = ["extra"] if rng.random() < 0.7 else [REQ, "extra"]
+        elif not isinstance(x, (dict, list)) and x is not None and rng.random() < 0.25:
+            # the marker imposed AGAIN by an upper layer, over a value a lower layer supplies: the topmost word counts
+            out[k] = REQ
     if rng.random() < 0.2:
         k = rng.choice(KEYS)
         if k not in base:
